@@ -1,4 +1,4 @@
-import FxVerif.Proofs.C11Pool
+import FxVerif.Proofs.C11Sanity
 /-!
 # C11 — transferring delegation shares conserves shares, stake and reward entitlements
 
@@ -481,6 +481,50 @@ theorem still_withdrawable_partial (nAcc h0 : Nat) (vals : List (Nat × Nat)) (h
     · exact Or.inl hE
     · exact Or.inr ⟨v', ret, c, hu, hn⟩
 
+/-- **still_withdrawable_iff** — exactly when the exception of `still_withdrawable_partial` occurs.  After any history,
+for every delegator `d` of every validator and every block height `h`: let `stakeAfter` be the stake the SDK recomputes
+from the delegator's starting stake by one truncating multiplication with `1 − fraction` per slash event recorded
+since the starting info was written (`Model.C11.stakeAfter`, a function of the starting info and the slash events only —
+no reward ratio, no other delegator enters), and let `sanityFires` say that it exceeds the current token worth of the
+delegator's shares by more than 3·10⁻¹⁸ (and the starting info is not of this very block).  Then
+
+* if `sanityFires` is false the delegator CAN withdraw (its delegation stays) and CAN undelegate all of its shares (the
+  delegation is removed) — withdrawability proved under precisely the hypothesis that is needed;
+* if `sanityFires` is true both calls fail, with the SDK's stake sanity error.
+
+So the only obstacle to `still_withdrawable` is this arithmetic predicate of one starting info and the slash fractions
+after it; share transfers enter only through the starting infos they write, and for those the predicate is provably
+false until the next slash (`nothing_pending_after_transfer`). -/
+theorem still_withdrawable_iff (nAcc h0 : Nat) (vals : List (Nat × Nat)) (hv : vals.length ≤ nAcc) (ops : List Op)
+    {w : Nat} (hw : w < vals.length) (h d sh : Nat) (hdel : (reachVS nAcc h0 vals ops w).del d = some sh) :
+    ((reachVS nAcc h0 vals ops w).sanityFires h d = false →
+      (∃ v' c, (reachVS nAcc h0 vals ops w).withdrawMsg h d = .ok (v', c) ∧ v'.del d = some sh) ∧
+      (∃ v' ret c, (reachVS nAcc h0 vals ops w).unbond h d sh = .ok (v', ret, c) ∧ v'.del d = none)) ∧
+    ((reachVS nAcc h0 vals ops w).sanityFires h d = true →
+      (reachVS nAcc h0 vals ops w).withdrawMsg h d = .error .stakeSanity ∧
+      (reachVS nAcc h0 vals ops w).unbond h d sh = .error .stakeSanity) := by
+  have hi : VInv nAcc (reachVS nAcc h0 vals ops w) := reach_SInv cfg_good nAcc h0 vals hv ops hw
+  obtain ⟨p1, p2⟩ := still_withdrawable_partial nAcc h0 vals hv ops hw h d sh hdel
+  generalize reachVS nAcc h0 vals ops w = v at hi hdel p1 p2 ⊢
+  obtain ⟨si, hs⟩ := Dom_sinfo_some hi.dom hdel
+  have key := withdrawRewards_sanity hi.ri (h := h) hdel hs
+  constructor
+  · intro hf
+    have hne : v.withdrawRewards h d ≠ .error .stakeSanity := by
+      intro hc
+      rw [key.mp hc] at hf
+      cases hf
+    constructor
+    · rcases p1 with hE | hok
+      · exact absurd (withdrawMsg_sanity_imp hE) hne
+      · exact hok
+    · rcases p2 with hE | hok
+      · exact absurd (unbond_sanity_imp hdel hE) hne
+      · exact hok
+  · intro ht
+    have hwr := key.mpr ht
+    exact ⟨withdrawMsg_sanity_of hwr, unbond_sanity_of hdel hwr⟩
+
 /-- **the exception in `still_withdrawable_partial` is real.**  `still_withdrawable` at full strength is false of the SDK's
 18-decimal arithmetic, without any share transfer: slash a validator of 10^20 tokens by 100 base units (fraction
 10⁻¹⁸), let someone delegate one base unit, slash by 100 base units again — the second effective fraction
@@ -747,6 +791,12 @@ example : isOk (((init 4 1 [(1000, 0)]).run cfg [.delegate 1 0 500, .approve 1 3
 -- still_withdrawable: on the demo history both parties really can withdraw and fully undelegate three blocks later
 example : isOk ((demo.vs 0).withdrawMsg (demo.height + 3) 1) = true ∧ isOk ((demo.vs 0).unbond (demo.height + 3) 1 (250 * ONE)) = true ∧
     isOk ((demo.vs 0).withdrawMsg (demo.height + 3) 2) = true ∧ isOk ((demo.vs 0).unbond (demo.height + 3) 2 (250 * ONE)) = true := by
+  decide
+-- still_withdrawable_iff: both cases occur — on the demo history (one slash of 10⁻¹⁸·… between the starting infos and now) the
+-- predicate is false for both parties; on the history of `stake_sanity_reachable` it is true for the operator
+example : (demo.vs 0).sanityFires (demo.height + 3) 1 = false ∧ (demo.vs 0).sanityFires (demo.height + 3) 2 = false ∧
+    (demo.vs 0).slashes.length = 1 := by decide
+example : (reachVS 2 1 [(100000000000000000000, 0)] [.slash 0 1 1, .delegate 1 0 1, .slash 0 1 1] 0).sanityFires 3 0 = true := by
   decide
 -- refcount_invariant: the demo history has a record referenced twice (current period + a starting info), one
 -- referenced by the slash event, and three starting infos (operator, sender, recipient)
